@@ -33,6 +33,7 @@ CONSTANTS N,          \* number of WAL partitions
           MaxW,       \* writes
           MaxFlush,   \* flushes started
           MaxCrash,   \* crashes
+          MaxInits,   \* data files written by one flush
           Dev
 
 VARIABLES wal,       \* [1..N -> Seq(file)], file = [id, recs: Seq(write id), open: BOOLEAN]
@@ -138,19 +139,31 @@ FlushIndex ==
   /\ mode = "run" /\ fpc = "switched" /\ fpc' = "indexed"
   /\ UNCHANGED <<wal, nfile, writeReq, mem, snap, pend, files, inits, mode, rpc, keyOf, nw, wst, acked, nflush, ncrash, hist>>
 
+\* commitSnapshot writes one *.tssp.init per data file (ordered / out-of-order, per measurement)
+\* and renames each into place; the snapshot's rows become readable from files with the first
+\* rename (the log still holds all of them until every rename is done).
 FlushInit ==
-  /\ mode = "run" /\ fpc = "indexed" /\ fpc' = "inited" /\ inits' = inits + 1
+  /\ mode = "run" /\ fpc \in {"indexed", "committing"} /\ inits < MaxInits
+  /\ fpc' = "committing" /\ inits' = inits + 1
   /\ UNCHANGED <<wal, nfile, writeReq, mem, snap, pend, files, mode, rpc, keyOf, nw, wst, acked, nflush, ncrash, hist>>
 
 FlushRename ==
-  /\ mode = "run" /\ fpc = "inited" /\ fpc' = "renamed"
-  /\ inits' = inits - 1 /\ files' = Append(files, snap)
-  /\ UNCHANGED <<wal, nfile, writeReq, mem, snap, pend, mode, rpc, keyOf, nw, wst, acked, nflush, ncrash, hist>>
+  /\ mode = "run" /\ fpc = "committing" /\ inits > 0
+  /\ inits' = inits - 1
+  /\ files' = IF files # <<>> /\ files[Len(files)] = snap THEN files ELSE Append(files, snap)
+  /\ UNCHANGED <<wal, nfile, writeReq, mem, snap, pend, fpc, mode, rpc, keyOf, nw, wst, acked, nflush, ncrash, hist>>
+
+\* all data files of the snapshot are in place
+FlushCommitted ==
+  /\ mode = "run" /\ fpc = "committing" /\ inits = 0
+  /\ files # <<>> /\ files[Len(files)] = snap
+  /\ fpc' = "renamed"
+  /\ UNCHANGED <<wal, nfile, writeReq, mem, snap, pend, files, inits, mode, rpc, keyOf, nw, wst, acked, nflush, ncrash, hist>>
 
 Without(ws, ids) == [p \in Parts |-> SelectSeq(ws[p], LAMBDA f : f.id \notin ids)]
 
 \* mutation seed "remove_wal_before_rename": the log may go as soon as the table is switched
-RemovableAt == IF "remove_wal_before_rename" \in Dev THEN {"switched", "indexed", "inited", "renamed"} ELSE {"renamed"}
+RemovableAt == IF "remove_wal_before_rename" \in Dev THEN {"switched", "indexed", "committing", "renamed"} ELSE {"renamed"}
 
 FlushRemoveWal ==
   /\ mode = "run" /\ fpc \in RemovableAt /\ pend # {}
@@ -233,7 +246,7 @@ RecEnd ==
 Next ==
   \/ \E k \in Keys : WriteMem(k)
   \/ \E w \in W : WriteWal(w) \/ Ack(w)
-  \/ FlushSwitch \/ FlushIndex \/ FlushInit \/ FlushRename \/ FlushRemoveWal \/ FlushEnd
+  \/ FlushSwitch \/ FlushIndex \/ FlushInit \/ FlushRename \/ FlushCommitted \/ FlushRemoveWal \/ FlushEnd
   \/ Crash \/ RecOpen \/ RecReplay \/ RecInit \/ RecRename \/ RecRemoveWal \/ RecEnd
 
 Spec == Init /\ [][Next]_vars
@@ -259,6 +272,6 @@ RemoveAfterRename ==
   [][ (mode = "run" /\ wal' # wal /\ Cardinality(AllFiles') < Cardinality(AllFiles)) => fpc = "renamed" ]_vars
 
 TypeOK == /\ mode \in {"run", "down", "rec"}
-          /\ fpc \in {"idle", "switched", "indexed", "inited", "renamed"}
+          /\ fpc \in {"idle", "switched", "indexed", "committing", "renamed"}
           /\ writeReq \in Nat /\ inits \in Nat
 =============================================================================
